@@ -98,6 +98,38 @@ def instances(tier, seed):
                     h = Hsym[n % len(Hsym)]
                 add(fam.with_horizon(s, h), Cfg(method, N=N, M=M, intg=intg or 'rk', grid=g, degree=degree, scheme=scheme))
                 n += 1
+    # seeded random scaled problems: random model, random scales on states/controls/algebraics/derivatives/variables and on every constraint
+    from .. import randspec
+    rr = random.Random(seed * 7919 + 1414)
+    scs = [Fr(2), Fr(1, 4), Fr(3), Fr(10), Fr(1, 5), Fr(7), Fr(1), Fr(1, 2), Fr(5)]
+    for ri in range(4 if tier == 'quick' else 100):
+        method, intg = rr.choice([('MS', 'rk'), ('SS', 'rk'), ('DC', None), ('MS', 'expl_euler'), ('DC', None)])
+        s = fam.random_dae(rr) if (method == 'DC' and rr.random() < 0.4) else fam.random_ode(rr)
+        N = rr.choice([1, 2, 3])
+        M = rr.choice([1, 2, 3]) if method != 'SS' else rr.choice([1, 2])
+        h = rr.choice(H[1:])
+        s = fam.with_horizon(s, h)
+        s.xscale = [rr.choice(scs) for _ in range(s.nx)]
+        if s.nu:
+            s.uscale = [rr.choice(scs) for _ in range(s.nu)]
+        if s.nz:
+            s.zscale = [rr.choice(scs) for _ in range(s.nz)]
+            if rr.random() < 0.5:
+                s.algscale = [rr.choice(scs) for _ in range(s.nz)]
+        if rr.random() < 0.5:
+            s.derscale = [rr.choice(scs) for _ in range(s.nx)]
+        for v in s.vars:
+            v.scale = rr.choice(scs)
+        s.cons = randspec.random_constraints(rr, s, method, M)
+        for c in s.cons:
+            c.scale = rr.choice(scs)
+        s.objective = randspec.random_objective(rr, s, method)
+        s.initial = [(X(0), Fr(3, 2))] + ([(U(0), Fr(-1, 2))] if s.nu else [])
+        degree, scheme = rr.choice([(2, 'radau'), (3, 'radau'), (1, 'legendre'), (1, 'radau')])
+        if method == 'DC' and not fam.rational_tables(degree, scheme) and not fam.horizon_symbolic(h):
+            degree, scheme = 2, 'radau'
+        g = rr.choice(grids)
+        add(s, Cfg(method, N=N, M=M, intg=intg or 'rk', grid=g, degree=degree, scheme=scheme), soft=True, family='random')
     return items
 
 
@@ -216,7 +248,8 @@ def run(item):
             if got:
                 ch.proved.append('x0:%r' % tgt)
     twins_ok = twins_bad = 0
-    if not mut and any(c.scale != 1 for c in spec.cons):
+    scaled_ci = [ci for ci, c in enumerate(spec.cons) if c.scale != 1]
+    if not mut and scaled_ci and Ref(inst.traj(0)).constraint_atoms(which=scaled_ci):      # (an offset may leave a constraint without any instance)
         ch2 = Checker(inst, timeout_ms=5000)
 
         def ref_twin(tr):
@@ -228,7 +261,7 @@ def run(item):
         _, un2, _ = ch2.match(rt, impa, far=False)
         if un2:
             twins_ok += 1
-        else:
+        elif not ch2.inconclusive:      # an undecided comparison tells nothing either way
             twins_bad += 1
     r = result(inst, ch, {'violations': viol, 'twins_ok': twins_ok, 'twins_bad': twins_bad,
                           'shape': '%s|%s|%s' % (cfg.tag(), spec.t0[0] + '/' + spec.T[0], spec.note),
